@@ -201,8 +201,8 @@ def _strip_alpha(ratio):
     return nf.subst(ratio, f)
 
 
-def check_solver_sites(ctx):
-    """C04-e: every reachable linear solve is direct, or iterative + checked + tight."""
+def check_solver_sites(ctx, rule="C04-e"):
+    """C04-e (shared with C01-C03): every reachable linear solve is direct, or iterative + checked + tight."""
     P = ctx.P
     n = 0
     for cls in SIM_CLASSES:
@@ -217,19 +217,20 @@ def check_solver_sites(ctx):
             callee = ev.data["callee"]
             where = f"{f.file}:{ev.line}"
             if callee in DIRECT_SOLVERS:
-                ctx.ok("C04-e", q + ":linear solve", where, "the step is solved with a direct solver (exact to rounding, cannot fail silently)", solver=callee)
+                ctx.ok(rule, q + ":linear solve", where, "the step is solved with a direct solver (exact to rounding, cannot fail silently)", solver=callee)
                 continue
             a = ev.data["args"]
             tol = a.get("rtol", a.get("tol"))
             tight = isinstance(tol, Num) and nf.is_const(tol.nf) and 0 < nf.cval(tol.nf) <= nf.cval(nf.const_text("1e-10"))
-            checked = _flag_checked(f.node, ev.node)
+            holder = ctx.P.functions.get(ev.func)
+            checked = _flag_checked(holder.node if holder is not None else f.node, ev.node)
             ctx.check(
-                tight and checked, "C04-e", q + ":linear solve", where,
+                tight and checked, rule, q + ":linear solve", where,
                 "an iterative solve has an explicit relative tolerance <= 1e-10 and its status flag is tested with a raising arm",
                 signature=("loose tolerance" if not tight else "") + ("; " if not tight and not checked else "") + ("status flag ignored" if not checked else ""),
                 solver=callee, rtol=str(tol),
             )
-    ctx.floor("C04-e", n, 2, "linear-solve call sites")
+    ctx.floor(rule, n, 2, "linear-solve call sites")
 
 
 def _flag_checked(fnode, call):
